@@ -41,12 +41,12 @@ Mode(pool, look, maxlen, maxz, srt, w) ==
    srt |-> srt, w |-> w]
 
 \* quick tier, exhaustive: every vector up to length 3 (wide pool) / 4,
-\* every SORTED vector (ascending or descending) up to length 5 over the
-\* wide pool, tables up to 4 x 3
+\* every SORTED vector (ascending or descending) up to length 5 over a
+\* 9-value pool, tables up to 4 x 3
 QuickModes == << Mode(Wide,   LookAll, 3, 1, FALSE, 0),
                  Mode(Medium, LookAll, 4, 2, FALSE, 0),
                  Mode(Neutr,  LookAll, 4, 1, FALSE, 0),
-                 Mode(Wide,   LookAll, 5, 1, TRUE,  0),
+                 Mode(Sorted, LookAll, 5, 1, TRUE,  0),
                  Mode(TblKey, LookTbl, 4, 1, FALSE, 2),
                  Mode(TblKey, LookTbl, 4, 1, FALSE, 3) >>
 
